@@ -17,6 +17,10 @@ def number_pipe(ctx, verdict, cases, name="wktnum"):
     import re
     from props import c18, exact_common as ec
     lit = re.compile(r"^(-?)(\d+)(?:\.(\d+))?$")
+    # a literal with an exponent is standard WKT as well (the property itself lists exponent notation among the spellings); it is
+    # not compared by Decimal!ParsesBack (no exponent arithmetic there) - the library's own parser must still return the bits
+    explit = re.compile(r"^-?(\d+\.?\d*|\.\d+)[eE][+-]?\d+$")
+    nexp = 0
     obs = list(vlib.run_driver(ctx, "digits", cases, for_tlc=False))
     exprs, sigs, flat = [], [], []
     for c, o in zip(cases, obs):
@@ -32,6 +36,10 @@ def number_pipe(ctx, verdict, cases, name="wktnum"):
                 if l["src"] != "wkt":
                     continue
                 mm = lit.match(l["t"])
+                if not mm and explit.match(l["t"]):
+                    nexp += 1
+                    parts.append("TRUE")
+                    continue
                 if not mm:
                     parts, why = ["FALSE"], "malformed-number"
                     break
@@ -47,6 +55,7 @@ def number_pipe(ctx, verdict, cases, name="wktnum"):
             exprs.append(" /\\ ".join(parts) if parts else "FALSE")
             sigs.append("wktnum|" + why)
             flat.append(dict(kind="nums", d=-1, vals=[v]))
+    ctx.coverage_extra["exponent_literals_not_compared_by_the_reference_reader"] = nexp
     spec = open(os.path.join(ctx.specdir, "Decimal.tla")).read()
     return c18.apalache_decimal(ctx, verdict, exprs, flat, sigs, name, spec, per_module=400)
 
